@@ -1,6 +1,7 @@
 import Perp.Spec.World
 import Perp.Props.ModelStep
 import Perp.Spec.Monitor
+import Perp.Spec.Registry
 import Driver.WorldParse
 
 /-!
@@ -27,6 +28,9 @@ structure WHist where
   /-- successful OpenPosition / ClosePosition that left a stored record: (trader, vamm, block height) -/
   tradeLog : List (Nat × Nat × Nat) := []
   baseTrade : List (Nat × Nat × Nat) := []
+  /-- the engine's answers to `Position{vamm, trader}` for every deployed market × trading account after the
+      previous transaction (`none`: the trace carries no query matrix) -/
+  lastQp : Option (List (Nat × Nat × Engine.Position)) := none
 
 def txKind (kv : KV) : String := kv.str "msg"
 
@@ -176,6 +180,36 @@ def propsOfInvTag (tag : String) : List String :=
   else if tag == "buffer" then ["C11"]
   else ["C08"]
 
+/-- the accounts whose positions are queried (`ALLOW_IDS` of the harness) -/
+def QUERIED_TRADERS : List Nat := [101, 102, 103, 104, 105, 106, 110]
+
+def parseQp (kv : KV) : Option (List (Nat × Nat × Engine.Position)) :=
+  match kv.get? "qp" with
+  | none => none
+  | some s => some ((splitNonEmpty s ";").filterMap parseQueriedPosition)
+
+/-- C10 as a user sees it (queries), next to the raw-storage view:
+    (i) the engine's answer to `Position{v, t}` is the stored record of (v, t) — the record itself names v and t —
+        and every stored record of a deployed market and a trading account is answered;
+    (ii) a transaction changes the answer for (v, t) only if t is its sender, or it is the Liquidate naming (v, t). -/
+def qpChecks (kind : String) (sender : Nat) (tx : World.Tx) (pre : Option (List (Nat × Nat × Engine.Position)))
+    (post : List (Nat × Nat × Engine.Position)) (w : World) : List String :=
+  let stored := w.engine.positions
+  let markets := w.vamms.map (·.1)
+  let agree1 := post.all (fun e => e.2.2.vamm == e.1 && e.2.2.trader == e.2.1 && stored.any (fun r => r == e.2.2))
+  let agree2 := stored.all (fun r => !(markets.contains r.vamm && QUERIED_TRADERS.contains r.trader)
+                                     || post.any (fun e => e.1 == r.vamm && e.2.1 == r.trader))
+  let named : Option (Nat × Nat) := match tx with | .engine (.liquidate v t _) => some (v, t) | _ => none
+  let look (l : List (Nat × Nat × Engine.Position)) (v t : Nat) : Option Engine.Position :=
+    (l.find? (fun e => e.1 == v && e.2.1 == t)).map (·.2.2)
+  let others : Bool := match pre with
+    | none => true
+    | some pre =>
+      markets.all (fun v => QUERIED_TRADERS.all (fun t =>
+        t == sender || named == some (v, t) || look pre v t == look post v t))
+  (if agree1 && agree2 then [] else [s!"{kind}:position-query-disagrees-with-stored-records"])
+  ++ (if others then [] else [s!"{kind}:position-query-answer-changed-for-another-trader"])
+
 def handleWCfg (acc : Acc) (prev : WHist) (kv : KV) (_line : String) : Acc × WHist :=
   -- a search mini-history inherits the liquidation log of the history it continues
   let inherits := srcHist kv == some prev.hist || (kv.get? "src").isSome && prev.srcOf == srcHist kv
@@ -205,7 +239,10 @@ def handleWObs (acc : Acc) (h : WHist) (kv : KV) (_line : String) : Acc × WHist
         (obsAllInvFails obs).foldl (fun a tag =>
           (propsOfInvTag tag).foldl (fun a p => a.report "DISAGREE" p s!"hyp:deployed-but-not-allinv:{tag}" _line) a) acc
       else acc
-    (acc, { h with last := obs, seen := obs.w.vamms.map (fun p => (p.1, p.2.st)) }, none)
+    let acc := match parseQp kv with
+      | some post => (qpChecks "deploy" 0 (.ifShutdown) none post obs.w).foldl (fun (a : Acc) t => a.report "SPECFAIL" "C10" t _line) acc
+      | none => acc
+    (acc, { h with last := obs, lastQp := parseQp kv, seen := obs.w.vamms.map (fun p => (p.1, p.2.st)) }, none)
   | some (tkv, tline) =>
     let acc := { acc with checked := acc.checked + 1 }
     let kind := txKind tkv
@@ -214,7 +251,7 @@ def handleWObs (acc : Acc) (h : WHist) (kv : KV) (_line : String) : Acc × WHist
     let isTrade := (tkv.str "msg" == "open" || tkv.str "msg" == "close") && tkv.bool "ok" && (tkv.get? "fault").all (· == "none")
       && obs.w.engine.positions.any (fun p => p.vamm == tkv.nat "v" && p.trader == tkv.nat "snd")
     let tradeLog := if isTrade then (tkv.nat "snd", tkv.nat "v", tkv.nat "height") :: h.tradeLog else h.tradeLog
-    let next : WHist := { h with last := obs, pending := none, liqLog := liqLog, tradeLog := tradeLog,
+    let next : WHist := { h with last := obs, pending := none, liqLog := liqLog, tradeLog := tradeLog, lastQp := parseQp kv,
                                  seen := if h.seen.length < 200 then obs.w.vamms.map (fun p => (p.1, p.2.st)) ++ h.seen else h.seen }
     match parseTx tkv with
     | none => (acc.report "DISAGREE" "C08" s!"unparsed-tx:{kind}" tline, next, none)
@@ -263,7 +300,7 @@ def handleWObs (acc : Acc) (h : WHist) (kv : KV) (_line : String) : Acc × WHist
         match World.applyTx h.last.w env sender funds tx with
         | .ok _ => "{model-accepts}"
         | .error _ => "{model-rejects}"
-      let acc := (allChecks step ++ extraChecks step ++ extraChecks2 step).foldl (fun a pc =>
+      let acc := (allChecks step ++ extraChecks step ++ extraChecks2 step ++ extraChecks3 step).foldl (fun a pc =>
         pc.2.foldl (fun a tag =>
           a.report "SPECFAIL" pc.1 (if pc.1 == "C07" then s!"{kind}:{tag}{errClass}{modelVerdict}" else s!"{kind}:{tag}") tline) a) acc
       -- C14: the insurance fund's membership queries agree with its stored registry (after every transaction)
@@ -286,6 +323,10 @@ def handleWObs (acc : Acc) (h : WHist) (kv : KV) (_line : String) : Acc × WHist
           if qall == "err" || stat.map (fun (p : Nat × Bool) => p.1) == reg.take 3
                && stat.all (fun (p : Nat × Bool) => match obs.w.vamm? p.1 with | some x => x.st.isOpen == p.2 | none => true) then acc
           else acc.report "SPECFAIL" "C14" s!"{kind}:vamm-status-query-disagrees-with-state" tline
+      -- C10 on the engine's own answers to `Position{vamm, trader}` (query view)
+      let acc := match parseQp _okv with
+        | some post => (qpChecks kind sender tx h.lastQp post obs.w).foldl (fun (a : Acc) t => a.report "SPECFAIL" "C10" t tline) acc
+        | none => acc
       -- C01 quote recovery across the history
       let acc := obs.w.vamms.foldl (fun a p =>
         if (h.seen.filter (fun e => e.1 == p.1)).all (fun e => Spec.C01.recoveryOk p.2.cfg.decimals e.2 p.2.st) then a
